@@ -49,11 +49,14 @@ def main():
             B = Path("/mnt/other")
             for name in NAMES[: 3 if s.tier == "quick" and depth > 1 else 5]:
                 for as_str in (False, True):
-                    for inside in (True, False):
-                        path = (A / name) if inside else Path("/elsewhere") / name
+                    for kind in (True, False, "sibling-with-prefix", "parent"):
+                        # outside: unrelated tree; a sibling whose name merely starts with the directory's name; the parent
+                        path = {True: A / name, False: Path("/elsewhere") / name, "sibling-with-prefix": Path(str(A) + "_backup") / name,
+                                "parent": A.parent / ("up-" + name)}[kind]
+                        inside = kind is True
                         rec = data.Recording(path=path, duration=1, channels=1, samplerate=8000)
                         for tname, obj in collections(rec).items():
-                            key = f"{tname}:depth={depth}:{name}:str={as_str}:inside={inside}"
+                            key = f"{tname}:depth={depth}:{name}:str={as_str}:inside={kind}"
                             s.case(None, key, sample=dict(type=tname, audio_dir=str(A), path=str(path)))
                             out = tmp / f"{uuid.uuid4().hex}.json"
                             ad = str(A) if as_str else A
